@@ -19,6 +19,7 @@ type c18Case struct {
 	Sep  string `json:"sep"`
 	Mod  string `json:"mod"`
 	Slow bool   `json:"slow_producers"`
+	Extra int   `json:"extra_ports,omitempty"` // ordinary in-ports of the joining process besides the joined one
 }
 
 func runC18(ctx *Ctx, w *Worker, c c18Case) {
@@ -55,6 +56,16 @@ func runC18(ctx *Ctx, w *Worker, c c18Case) {
 	if c.Mod != "" {
 		// with a modifier the members need not be resolvable: only record the expansion
 		pattern = `( echo "ARGS ` + ph + `" > args.log ; echo x > {o:out} )`
+	}
+	extraPaths := []string{}
+	for k := 0; k < c.Extra; k++ {
+		// one more source with one file per extra port; the command reads it too
+		ep := fmt.Sprintf("extra%d.txt", k)
+		pre[ep] = fmt.Sprintf("extra-%d\n", k)
+		extraPaths = append(extraPaths, ep)
+		pattern = fmt.Sprintf("( cat {i:x%d} > /dev/null ; %s )", k, pattern)
+		d.Nodes = append(d.Nodes, Node{Name: fmt.Sprintf("esrc%d", k), Kind: "filesource", Paths: []string{ep}})
+		d.Edges = append(d.Edges, Edge{From: fmt.Sprintf("esrc%d.out", k), To: fmt.Sprintf("join.x%d", k)})
 	}
 	d.Nodes = append(d.Nodes, Node{Name: "sts", Kind: "substream"}, Node{Name: "join", Kind: "proc", Cmd: pattern, Outs: map[string]string{"out": "joined.out"}})
 	d.Edges = append(d.Edges, Edge{From: prev, To: "sts.in"}, Edge{From: "sts.substream", To: "join.in"})
@@ -130,7 +141,13 @@ func runC18(ctx *Ctx, w *Worker, c c18Case) {
 			break
 		}
 	}
-	if len(ai.Upstream) != c.N {
+	for _, p := range extraPaths {
+		if _, ok := ai.Upstream[p]; !ok {
+			ctx.Res.Violate(Violation{What: fmt.Sprintf("input %s of an ordinary in-port is not recorded as upstream of the joining task (upstream keys %v)", p, keysOf(ai.Upstream)), Class: "c18.audit", Witness: c})
+			break
+		}
+	}
+	if len(ai.Upstream) != c.N+c.Extra {
 		ctx.Res.Violate(Violation{What: fmt.Sprintf("audit record lists %d upstream entries for %d members: %v", len(ai.Upstream), c.N, keysOf(ai.Upstream)), Class: "c18.audit", Witness: c})
 	}
 }
@@ -165,6 +182,10 @@ func checkC18(ctx *Ctx) {
 	}
 	// modifiers on a joined port apply to every member, not to the joined string
 	cases = append(cases, c18Case{N: 3, Buf: 2, Sep: " ", Mod: "basename"}, c18Case{N: 3, Buf: 1, Sep: ",", Mod: "%.txt"}, c18Case{N: 4, Buf: 3, Sep: ":", Mod: "s/m/q/", Slow: true})
+	// a joined in-port next to ordinary in-ports (several repetitions: Go's map order decides which port is visited first)
+	for k := 0; k < 4; k++ {
+		cases = append(cases, c18Case{N: 3, Buf: 2, Sep: " ", Extra: 3})
+	}
 	parallel(len(cases), 6, func(i int) {
 		if ctx.TimeLeft() {
 			runC18(ctx, w, cases[i])
